@@ -33,6 +33,12 @@ Theorem C03_int_text_fixed : forall n : Z, its_fixed n = dec n.
 Proof. exact its_fixed_dec. Qed.
 Print Assumptions C03_int_text_fixed.
 
+(* the code at /repo HEAD (since 70440c1 the switch [its] selects the repaired printer): every cell of every
+   column type is written as its canonical text — no size guard *)
+Theorem C03_cell_text_current : forall f : fld, col_text f = print_fld f.
+Proof. exact col_text_fixed_print. Qed.
+Print Assumptions C03_cell_text_current.
+
 (* ---- T1: the strided scatter of dump_csv.join_columns is the tab/newline layout — every table of n >= 1
    columns, any number of rows (0 included), any cell lengths (0 included) ---- *)
 Theorem C03_join_columns_canonical :
